@@ -29,9 +29,20 @@ fn shared_pp(thorough: bool) -> Arc<PublicParameters> {
     P.get_or_init(|| (thorough, Arc::new(shared::setup(cap)))).1.clone()
 }
 
+/// order in which this process handles the history set (three different
+/// circuits with one label and one constraint count)
+fn history_order(pool: u8) -> [usize; 3] {
+    [[0, 1, 2], [2, 1, 0], [1, 0, 2], [2, 0, 1]][(pool % 4) as usize]
+}
+
 pub fn own_digests(thorough: bool, pool: u8) -> Result<BTreeMap<String, String>, String> {
     let pp = shared_pp(thorough);
     let mut m = BTreeMap::new();
+    let order = history_order(pool);
+    let d = in_pool(pool, || shared::history_digests(&pp, &order)).map_err(|e| format!("history set in order {order:?}: {e:?}"))?;
+    for (k, v) in d {
+        m.insert(k, v);
+    }
     for (size, a) in shared::circuit_set(thorough) {
         let d = in_pool(pool, || shared::digests(&pp, size, a)).map_err(|e| format!("{size}: {e:?}"))?;
         for (k, v) in d {
@@ -190,7 +201,7 @@ fn sweep(ctx: &Ctx) {
     // concurrent proving and verifying on shared keys
     let pp = shared_pp(thorough);
     let (size, a) = (1000usize, 6u64);
-    let circuit = shared::Mixed { size, a };
+    let circuit = shared::Mixed { size, a, variant: 0 };
     let (prover, verifier) = match Compiler::compile_with_circuit(&pp, b"c18-concurrent", &circuit) {
         Ok(k) => k,
         Err(e) => {
@@ -212,7 +223,7 @@ fn sweep(ctx: &Ctx) {
                     s.spawn(move || {
                         let mut rng = ChaCha20Rng::seed_from_u64(i);
                         // a label first seen concurrently
-                        let _ = Compiler::compile_with_circuit(&shared::setup(64), format!("fresh-{i}").as_bytes(), &shared::Mixed { size: 40, a: i });
+                        let _ = Compiler::compile_with_circuit(&shared::setup(64), format!("fresh-{i}").as_bytes(), &shared::Mixed { size: 40, a: i, variant: 0 });
                         match prover.prove(&mut rng, circuit) {
                             Ok((p, pi)) => {
                                 let ok = verifier.verify(&p, &pi).is_ok();
